@@ -84,7 +84,7 @@ FORMS = [[('', '', [['main']]), ('', ';main', [['main', 'o']])],
          [('?', '', [['x', 'z']]), ('?', ';x;z', [['x', 'z']]), ('??', ';x', [['x', 'z']]), ('?', ';x', [['x'], ['x', 'z']])]]
 
 
-def recv_mixed(npub, polls, nones, planted=None, forms=None):
+def recv_mixed(npub, polls, nones, planted=None, forms=None, ctrl=False, again=True):
     def check(ctx, data, st):
         e = ctx.e
         if planted: e.fail('planted', 'twin', {'kind': 'planted'})
@@ -112,7 +112,7 @@ def recv_mixed(npub, polls, nones, planted=None, forms=None):
             if sock.kind == fakezmq.PUSH and sock.addr and any(s.ephemeral == 2 and s.addr.split(':')[1] == sock.addr.split(':')[1] for s in ctx.r.senders.values()):
                 pass
     def scenario(e):
-        recv_stream(e, forms or FORMS, npub, polls, nones, check, again=True, any_order=True)
+        recv_stream(e, forms or FORMS, npub, polls, nones, check, again=again, any_order=True, ctrl=ctrl)
     return scenario
 
 
@@ -149,6 +149,10 @@ def harnesses(tier):
                 functions=fn, stubs=stubs, assumptions=assume, budget_s=1200),
         Harness('c05.recv_mixed', recv_mixed(2, 12 if q else 14, 1, forms=[FORMS[0][:1], FORMS[1][:3]] if q else FORMS), twin=recv_mixed(2, 12, 1, planted=True),
                 bounds={'sources': '1 sync + 1 ephemeral (? or ??)', 'forms': '1 x 3' if q else '2 x 4', 'publishes_per_source': 2, 'poll_decisions': 12 if q else 14},
+                functions=fn, stubs=stubs, assumptions=['per-connection FIFO'], budget_s=1200),
+        Harness('c05.recv_mixed.ctrl', recv_mixed(2, 12, 0, forms=[FORMS[0][:1], FORMS[1][:2] if q else FORMS[1]], ctrl=True, again=False),
+                bounds={'sources': '1 sync + 1 ephemeral (? or ??)', 'forms': '1 x 2' if q else '1 x 4', 'publishes_per_source': 2, 'poll_decisions': 12,
+                        'control message': 'none, or one HELLO / out-of-band / CLOSE message of a publisher at any position of the stream'},
                 functions=fn, stubs=stubs, assumptions=['per-connection FIFO'], budget_s=1200),
         Harness('c05.eph2_silent', eph2_silent, bounds={'publishes': 2, 'polls': 8}, functions=fn, stubs=stubs, assumptions=[], budget_s=120),
     ]
